@@ -106,6 +106,7 @@ Definition step_ok (o : ostep) : bool :=
       else N.eqb e e_closed && N.eqb n 0
   | EvReadFrom _ e => N.eqb e e_nil || N.eqb e e_closed
   | EvStats w r => N.eqb w (sn_w (os_sn o)) && N.eqb r (sn_r (os_sn o))
+  | EvPanic => false
   | _ => true
   end.
 
